@@ -498,3 +498,68 @@ func zzH_STRe() {
 		vReach("end")
 	})
 }
+
+// zzH_STRmr: several goroutines blocked in ReadMessage on ONE client stream when a burst of as many
+// messages arrives back to back: every message is delivered to some reader, once (no message stays
+// queued while a reader stays blocked). Afterwards the stream is closed and nobody is left blocked.
+func zzH_STRmr() {
+	R := vParam("strmr.R", 2)
+	m := newZZMsgs(8)
+	m.out = make(chan []byte, 8)
+	conn := NewConnWithCodec(NewClientCodec(&zzBytesCodec{}, nil, m, 64))
+	switch vChoose("mode", 3) {
+	case 1:
+		conn.directIO = true
+	case 2:
+		conn.SetPipelining(true)
+	}
+	var st Stream
+	opened := make(chan struct{}, 1)
+	vGo("opener", func() {
+		s, err := conn.NewStream("S.Watch")
+		vAssert(err == nil && s != nil, "stream-opened")
+		st = s
+		opened <- struct{}{}
+	})
+	var open pbRequest
+	open.Unmarshal(<-m.out)
+	m.deliver(zzResponse(open.Seq, "", nil))
+	<-opened
+	got := make([][]byte, R)
+	errs := make([]error, R)
+	back := make([]bool, R)
+	for i := 0; i < R; i++ {
+		i := i
+		vGo("reader", func() {
+			var msg []byte
+			errs[i] = st.ReadMessage(nil, &msg)
+			got[i] = msg
+			back[i] = true
+		})
+	}
+	vQuiesce() // every reader is parked
+	for i := 0; i < R; i++ {
+		m.deliver(zzResponse(open.Seq, "", []byte{byte(0x61 + i)}))
+	}
+	vQuiesce()
+	seen := map[byte]int{}
+	for i := 0; i < R; i++ {
+		vAssert(back[i] && errs[i] == nil && len(got[i]) == 1, "all-messages-delivered")
+		if len(got[i]) == 1 {
+			seen[got[i][0]]++
+		}
+	}
+	for i := 0; i < R; i++ {
+		vAssert(seen[byte(0x61+i)] == 1, "all-messages-delivered")
+	}
+	m.auto = true
+	m.autoStreams = true
+	m.out = nil
+	m.yieldW = false
+	st.Close()
+	m.fail(io.EOF)
+	vAtEnd(func() {
+		vAssert(vBlocked() == 0, "reader-unblocked")
+		vReach("end")
+	})
+}
